@@ -431,6 +431,7 @@ def work(job):
                 continue
             if not generated and not diagnosed:
                 res["problems"].append({"kind": "schema-silent", "schema": name, "class": cname})
+                res["graph"] = ab.to_coq()
         # two distinct classes, one module file
         for modf, lst in res.get("expected_modules", {}).items():
             cn = {c for _, c in lst}
@@ -534,6 +535,10 @@ def work(job):
 def classify(run, r, p):
     """known finding (decided by an exact structural test that mirrors the guard of the theorem) or violation"""
     k = p["kind"]
+    if k == "schema-silent" and r.get("pressure_guard") is False:
+        if run.known_finding("name_pressure_pop", f"document {r['label']}: component {p['schema']} (class {p['class']}) has no module and no diagnostic; "
+                                                  "the Coq guard g_no_name_pressure is false on the abstracted graph"):
+            return
     if k == "operation-silent":
         clash = [keys for modf, keys in r.get("module_clash", []) if modf == p["module"]]
         if clash and run.known_finding("module_overwrite", f"document {r['label']}: operations {clash[0]} share the module file {p['module']}; "
@@ -567,6 +572,8 @@ def run(run, tier, replay=None):
         ok = {"200": {"description": "ok"}}
         jobs.append(("witness:module_overwrite", {"openapi": "3.1.0", "info": {"title": "t", "version": "1"}, "components": {"schemas": {}},
                                                   "paths": {"/a": {"get": {"operationId": "get-x", "responses": ok}}, "/b": {"get": {"operationId": "get_x", "responses": ok}}}}, 0))
+        jobs.append(("witness:name_pressure_pop", {"openapi": "3.1.0", "info": {"title": "t", "version": "1"}, "paths": {}, "components": {"schemas": {
+            "MP": OBJ({"q": {"type": "string"}}), "M": OBJ({"p": OBJ({"x": {"type": "string"}})}), "User": OBJ({"m": {"$ref": REF + "MP"}})}}}, 0))
         jobs.append(("witness:status_alias", {"openapi": "3.1.0", "info": {"title": "t", "version": "1"}, "components": {"schemas": {}},
                                               "paths": {"/a": {"get": {"operationId": "a", "responses": {"200": {"description": "x"}, "0200": {"description": "y"}}}}}}, 0))
     run.rule = ("one case = one document: the atlas, generated valid documents, and documents with seeded breakage (broken schemas and their dependants over "
@@ -584,6 +591,10 @@ def run(run, tier, replay=None):
         for r in ex.map(work, jobs, chunksize=4):
             results.append(r)
     print("C07: %d documents generated and counted in %.1fs" % (len(results), time.time() - t0)); t0 = time.time()
+    gi = [i for i, r in enumerate(results) if r.get("graph")]
+    gfalse = set(run_cases(HDR, [f"g_no_name_pressure {results[i]['graph']}" for i in gi], shard=50)) if gi else set()
+    for k, i in enumerate(gi):
+        results[i]["pressure_guard"] = (k not in gfalse)
     terms, meta = [], []
     for r in results:
         if r.get("raised"):
